@@ -192,6 +192,27 @@ def _kw_loop(m: MethodNF, ctx) -> KwMatch | None:
     I = m.I
     loops = nf.loops_in_ctx(ctx)
     if not loops:
+        # ``k = next((k for k in KWS if TEST(k)), None); if k is None: return False; ...sink...``
+        for n, c in nf.iter_nodes(m.tree):
+            if n[0] == "sink" and c == ctx:
+                kterm = n[1].get("keyword")
+                if kterm is not None and kterm[0] == "call" and kterm[1] == "next" and len(kterm[2]) == 2 and is_const(kterm[2][1], None):
+                    g = kterm[2][0]
+                    o = I.obj(g)
+                    guards = nf.guards_in_ctx(ctx)
+                    if isinstance(o, HList) and len(o.segs) == 1 and o.segs[0][0] == "loop" and o.segs[0][2] == [("e", ("elem", o.segs[0][1]))] \
+                            and (("cmp", "Is", kterm, NONE), False) in guards:
+                        inner = o.segs[0][1]
+                        ii = I.loops[inner]
+                        conds = ii.get("conds") or ()
+                        if len(conds) != 1:
+                            return None
+                        r = KwMatch()
+                        r.loop = inner
+                        r.keyword = kterm
+                        r.test = nf.subst(conds[0], {("elem", inner): KW})
+                        r.lists = _kw_parts(m, ii.get("iter"))
+                        return r
         return None
     lid = loops[-1]
     info = I.loops[lid]
@@ -220,6 +241,12 @@ def _kw_loop(m: MethodNF, ctx) -> KwMatch | None:
         r.test = nf.subst(gs[0][0], {("elem", lid): KW})
     if info.get("conds"):
         return None
+    r.lists = _kw_parts(m, base)
+    return r
+
+
+def _kw_parts(m: MethodNF, base):
+    I = m.I
     # keyword lists in order: '+' chains and list displays of splats
     def parts(t):
         if t[0] == "binop" and t[1] == "Add":
@@ -232,8 +259,7 @@ def _kw_loop(m: MethodNF, ctx) -> KwMatch | None:
                 out += parts(s[1])
             return out
         return [t]
-    r.lists = parts(base)
-    return r
+    return parts(base)
 
 
 def _returns_true_after(m: MethodNF, sink_node) -> bool:
@@ -351,7 +377,11 @@ def rule_keyword_types(rep: Report, rid="C05.types") -> None:
                         if t[0] == "binop" and t[1] == "Add":
                             return parts(t[2]) + parts(t[3])
                         return [t]
-                    for x in parts(it):
+                    flat = [sg[1] for sg in nf.flatten_segs(I, [("s", it)], tree) if sg[0] == "s"] if it is not None else []
+                    pieces = []
+                    for fx in flat:
+                        pieces += parts(fx)
+                    for x in pieces:
                         # Dialect properties are inlined to spec[...] reads of the dialect just looked up
                         nm = None
                         for s in nf.subterms(x):
